@@ -10,6 +10,12 @@ CHECKS = {
     text="Every (carrier, value, restriction set) triple in an exhaustive small-bound sweep (all subsets of the numeric facets, of the length facets and of an enumeration pool, all integer carriers with their extremes, multi-byte strings) and tens of thousands of proptest-generated full-range triples with Option/Vec nesting are run through the helper source compiled unmodified from /repo and compared with an independent facet specification. Disagreements are minimised to their cause and shrunk. Held = no disagreement on anything explored; not a proof for all i32 bounds.",
     note="Trusted: the harness's facet specification (c06.rs spec_leaf), rustc. Text that is a decimal/float/padded numeral under numeric facets is generated but not judged.",
     design="DESIGN.md section 4 C06"),
+ "C11": dict(
+    category="exploration",
+    technique="exhaustive enumeration of small import graphs plus proptest-generated larger ones, run in isolated worker processes; BFS-reachability oracle on struct names (syn) and metamorphic byte-equality under changes to unreachable siblings",
+    text="All directed import graphs with self-loops over up to 3 files (quick; 4 files in thorough: 262144 graphs x starts) and generated graphs over 5-8 files are rendered to schema files and generated in worker processes. The run must return normally, contain each component of each reachable file exactly once and nothing of unreachable files, and be byte-identical when unreachable siblings are removed, broken, or replaced. Exhaustive within the stated file bound; sampled above it.",
+    note="Trusted: the BFS model, syn. Files carry self-contained components (no cross-file type references), so reference resolution across imports is left to C08/C09.",
+    design="DESIGN.md section 4 C11"),
  "C12": dict(
     category="exploration",
     technique="metamorphic property-based testing: byte equality of outputs across sampled hash seeds (repeats, threads, fresh processes), permuted file registration orders and call histories on one FilesToRead, over generated order-sensitive WSDLs and the repository corpus",
